@@ -32,7 +32,7 @@ class Buf:
 
 
 def _run(fx, name, *args):
-    it = Interp()
+    it = Interp(max_steps=60_000)     # the helpers are a few dozen steps on this domain; a runaway loop is UNKNOWN, not a hang
     f = make_callable(fx.forest, 'encoder', name, it)
     return f(*args)
 
